@@ -46,7 +46,7 @@ def run(ctx, args):
         ctx.samples = [{"trace_prefix": [next(f).strip() for _ in range(8)]}]
     ctx.assumptions += ["the code's time.Now() lies between the two clock readings bracketing each call (monotonic clock)",
                         "an outcome is demanded only when it is the same for every instant of the bracket",
-                        "BYE / NOTIFY / Expires-header mapping onto Add/Remove is covered by the proxy-level driver (C04/C15 through the loop)"]
+                        "through the loop the pool-vs-pin origin of a dispatch is read from the rr.next hook"]
     ctx.trusted += ["in-package reads of DialogBasedBackend.backends / nextCleanTime", "TLC 1.8.0"]
     for w in warns[:5]:
         print("NOTE: model deviation (property still holds): line %s case %s %s" % w)
@@ -65,3 +65,8 @@ def run(ctx, args):
             extract_case(trace, f["case"], sub)
             ctx.violation("case %s line %d: %s" % (f["case"], f["line"], f["what"]), files=[sub], tag=f["case"], data=f)
     ctx.extra["failing_cases"] = len(seen)
+    # through the real message loop: INVITE/SUBSCRIBE responses with Expires establish, BYE answered / NOTIFY terminated dissolve
+    from c04 import sticky
+    from proxyfam import report
+    lf = sticky(ctx, "C15", "c15", {"VERIF_NRAND": 10 if q else 80}, "life_trace.ndjson")
+    report(ctx, "C15", lf, classfn=lambda f: f["what"] + "/" + f["detail"])
